@@ -93,19 +93,47 @@ Proof.
   intros. rewrite skipn_skipn_nat. f_equal. lia.
 Qed.
 
-(** ** chunkings *)
-Definition chunks_ok (cs : list (list Z)) : Prop := Forall (fun c => 0 < zlen c) cs.
+(** ** chunkings
+    A reader is ANY finite list of chunks — empty chunks included: a Read that returns
+    (0, nil), which io.Reader discourages but allows — except that the list does not
+    END with an empty chunk (that would be the terminal condition delivered alone,
+    which the terminal's [t_with_last = false] already describes). *)
+Definition chunks_ok (cs : list (list Z)) : Prop := last cs [0] <> [].
 
-Lemma chunks_ok_length cs : chunks_ok cs -> (length cs <= length (concat cs))%nat.
+(** the stricter notion "every chunk is non-empty" (what [chunks_of] produces) *)
+Definition chunks_pos (cs : list (list Z)) : Prop := Forall (fun c => 0 < zlen c) cs.
+
+Lemma chunks_ok_nil : chunks_ok [].
+Proof. unfold chunks_ok. cbn. discriminate. Qed.
+
+Lemma chunks_ok_tail c rest : chunks_ok (c :: rest) -> rest <> [] -> chunks_ok rest.
+Proof. unfold chunks_ok. destruct rest; [contradiction|]. cbn [last]. auto. Qed.
+
+Lemma chunks_ok_single c : chunks_ok [c] -> c <> [].
+Proof. unfold chunks_ok. cbn [last]. auto. Qed.
+
+Lemma chunks_ok_cons c rest : (rest = [] -> c <> []) -> (rest <> [] -> chunks_ok rest) -> chunks_ok (c :: rest).
 Proof.
-  induction 1 as [|c cs Hc _ IH]; cbn [concat length]; [lia|].
-  rewrite app_length. unfold zlen in Hc. lia.
+  unfold chunks_ok. intros H1 H2. destruct rest as [|d rest]; cbn [last]; [apply H1; reflexivity|].
+  apply H2. discriminate.
+Qed.
+
+Lemma chunks_pos_ok cs : chunks_pos cs -> chunks_ok cs.
+Proof.
+  induction 1 as [|c cs Hc _ IH]; [apply chunks_ok_nil|].
+  apply chunks_ok_cons; intros.
+  - intros ->. unfold zlen in Hc. cbn [length] in Hc. lia.
+  - exact IH.
 Qed.
 
 Lemma chunks_ok_concat_nil cs : chunks_ok cs -> concat cs = [] -> cs = [].
 Proof.
-  intros H E. apply chunks_ok_length in H. rewrite E in H. cbn in H.
-  destruct cs; [reflexivity|cbn in H; lia].
+  induction cs as [|c rest IH]; intros Hok E; [reflexivity|]. exfalso.
+  cbn [concat] in E. apply app_eq_nil in E. destruct E as [Ec Er].
+  destruct rest as [|d rest'].
+  - apply (chunks_ok_single c Hok Ec).
+  - assert (Hr : d :: rest' = []) by (apply IH; [apply (chunks_ok_tail c); [assumption|discriminate]|assumption]).
+    discriminate.
 Qed.
 
 (** ** io.ReadFull *)
@@ -120,31 +148,31 @@ Lemma readfull_loop_eq {St} (read : St -> Z -> list Z * option perr * St) fuel r
 Proof. destruct fuel; reflexivity. Qed.
 
 Lemma readfull_loop_cread t min : forall cs got fuel,
-  chunks_ok cs -> zlen got <= min -> (length cs + 2 <= fuel)%nat ->
+  zlen got <= min -> (length cs + 2 <= fuel)%nat ->
   exists e cs',
     readfull_loop cread fuel (cs, t) got None min
       = Some (got ++ firstn (Z.to_nat (min - zlen got)) (concat cs), e, (cs', t))
     /\ concat cs' = skipn (Z.to_nat (min - zlen got)) (concat cs)
-    /\ chunks_ok cs'
-    /\ (zlen got + zlen (concat cs) < min -> e = Some (t_err t)).
+    /\ (chunks_ok cs -> chunks_ok cs')
+    /\ (zlen got + zlen (concat cs) < min -> e = Some (t_err t))
+    /\ (length cs' <= length cs)%nat.
 Proof.
-  induction cs as [|c rest IH]; intros got fuel Hok Hgot Hfuel.
+  induction cs as [|c rest IH]; intros got fuel Hgot Hfuel.
   - (* no chunk left *)
     rewrite readfull_loop_eq. cbn [is_none concat].
     destruct (Z.ltb_spec (zlen got) min) as [Hlt|Hge]; cbn [andb].
     + destruct fuel as [|f]; [cbn in Hfuel; lia|].
       cbn [cread]. rewrite readfull_loop_eq. cbn [is_none]. rewrite andb_false_r.
       exists (Some (t_err t)), []. rewrite firstn_nil, skipn_nil. cbn [concat].
-      repeat split; auto.
+      repeat split; auto; try (cbn [length]; lia).
     + exists None, []. rewrite firstn_nil, skipn_nil, app_nil_r. cbn [concat].
-      repeat split; auto. rewrite zlen_nil. lia.
-  - inversion Hok as [|? ? Hc Hrest]; subst.
-    rewrite readfull_loop_eq. cbn [is_none].
+      repeat split; auto; try (cbn [length]; lia). rewrite zlen_nil. lia.
+  - rewrite readfull_loop_eq. cbn [is_none].
     destruct (Z.ltb_spec (zlen got) min) as [Hlt|Hge]; cbn [andb].
     + destruct fuel as [|f]; [cbn in Hfuel; lia|].
       cbn [cread concat].
       destruct (Z.leb_spec (zlen c) (min - zlen got)) as [Hfit|Hbig].
-      * (* the whole chunk is delivered *)
+      * (* the whole chunk is delivered (possibly an empty one: a (0, nil) Read) *)
         destruct (is_nil rest && t_with_last t) eqn:Hlast.
         -- (* ... together with the terminal error *)
            apply andb_prop in Hlast. destruct Hlast as [Hnil _].
@@ -152,15 +180,21 @@ Proof.
            rewrite readfull_loop_eq. cbn [is_none]. rewrite andb_false_r.
            exists (Some (t_err t)), [].
            rewrite firstn_all_z by lia. rewrite skipn_all_z by lia. cbn [concat].
-           repeat split; auto.
+           repeat split; auto; try (cbn [length]; lia). intros _. apply chunks_ok_nil.
         -- cbn [length] in Hfuel.
-           destruct (IH (got ++ c) f Hrest) as (e & cs' & He & Hc' & Hok' & Herr).
+           destruct (IH (got ++ c) f) as (e & cs' & He & Hc' & Hok' & Herr & Hlen').
            { rewrite zlen_app. lia. } { lia. }
            exists e, cs'. rewrite He. rewrite zlen_app in *.
            rewrite firstn_app_z by lia. rewrite skipn_app_z by lia.
            replace (min - zlen got - zlen c) with (min - (zlen got + zlen c)) by lia.
-           rewrite <- app_assoc. repeat split; auto.
-           intros H. rewrite zlen_app in H. apply Herr. lia.
+           rewrite <- app_assoc. repeat split; auto; try (cbn [length]; lia).
+           ++ intros Hok. destruct rest as [|d rest'].
+              ** (* nothing after c: the loop ran on the empty list *)
+                 assert (Hnil : concat cs' = []) by (rewrite Hc'; cbn [concat]; apply skipn_nil).
+                 clear He. revert Hc'. cbn [concat]. rewrite skipn_nil. intros Hc'.
+                 apply Hok'. apply chunks_ok_nil.
+              ** apply Hok'. apply (chunks_ok_tail c); [assumption|discriminate].
+           ++ intros H. rewrite zlen_app in H. apply Herr. lia.
       * (* only the first [min - |got|] bytes of the chunk fit *)
         set (k := min - zlen got) in *.
         rewrite readfull_loop_eq.
@@ -170,31 +204,34 @@ Proof.
         cbn [andb].
         exists None, (skipn (Z.to_nat k) c :: rest).
         rewrite firstn_app_short_z by lia. rewrite skipn_app_short_z by lia. cbn [concat].
-        repeat split; auto.
-        -- constructor; auto. rewrite zlen_skipn by lia. lia.
+        repeat split; auto; try (cbn [length]; lia).
+        -- intros Hok. apply chunks_ok_cons.
+           ++ intros _ E. apply (f_equal (@zlen Z)) in E. rewrite zlen_skipn in E by lia. unfold zlen at 2 in E. cbn [length] in E. lia.
+           ++ intros Hr. apply (chunks_ok_tail c); assumption.
         -- intros H. rewrite zlen_app in H. pose proof (zlen_nonneg (concat rest)). unfold k in *. lia.
     + exists None, (c :: rest).
       replace (min - zlen got) with 0 by lia. cbn [Z.to_nat firstn skipn].
-      rewrite app_nil_r. repeat split; auto.
+      rewrite app_nil_r. repeat split; auto; try (cbn [length]; lia).
       pose proof (zlen_nonneg (concat (c :: rest))). lia.
 Qed.
 
 (** the error io.ReadFull reports when the stream ends (as [t] says) after [got] < min bytes *)
 Theorem ReadFull_cread cs t min fuel :
-  chunks_ok cs -> 0 <= min -> (length cs + 2 <= fuel)%nat ->
+  0 <= min -> (length cs + 2 <= fuel)%nat ->
   exists cs',
     ReadFull cread fuel (cs, t) min
       = Some (firstn (Z.to_nat min) (concat cs),
               (if zlen (concat cs) <? min then Some (end_err t (zlen (concat cs)) EEOF) else None),
               (cs', t))
     /\ concat cs' = skipn (Z.to_nat min) (concat cs)
-    /\ chunks_ok cs'.
+    /\ (chunks_ok cs -> chunks_ok cs')
+    /\ (length cs' <= length cs)%nat.
 Proof.
-  intros Hok Hmin Hfuel.
-  destruct (readfull_loop_cread t min cs [] fuel Hok) as (e & cs' & He & Hc' & Hok' & Herr).
+  intros Hmin Hfuel.
+  destruct (readfull_loop_cread t min cs [] fuel) as (e & cs' & He & Hc' & Hok' & Herr & Hlen').
   { rewrite zlen_nil. lia. } { lia. }
   rewrite zlen_nil, Z.sub_0_r, Z.add_0_l in *. cbn [app] in He.
-  exists cs'. unfold ReadFull. rewrite He. split; [|split; assumption].
+  exists cs'. unfold ReadFull. rewrite He. split; [|split; [assumption|split; assumption]].
   f_equal. f_equal. f_equal.
   rewrite zlen_firstn by lia.
   destruct (Z.ltb_spec (zlen (concat cs)) min) as [Hlt|Hge].
@@ -234,10 +271,13 @@ Proof. destruct e; reflexivity. Qed.
 
 (** consuming [j] bytes without meeting the end does not change the final error *)
 Lemma rall_err_step S n t j :
-  0 < j <= n -> j <= zlen S -> ~ (j = zlen S /\ t_with_last t = true) ->
+  0 <= j <= n -> 0 < n -> j <= zlen S -> ~ (j = zlen S /\ t_with_last t = true) ->
   rall_err (skipn (Z.to_nat j) S) (n - j) t = rall_err S n t.
 Proof.
-  intros Hj HS Hnl. unfold rall_err. rewrite zlen_skipn by lia.
+  intros Hj Hn HS Hnl.
+  destruct (Z.eq_dec j 0) as [->|Hj0].
+  { cbn [Z.to_nat skipn]. rewrite Z.sub_0_r. reflexivity. }
+  unfold rall_err. rewrite zlen_skipn by lia.
   destruct (Z.leb_spec n 0); [lia|].
   destruct (Z.leb_spec (n - j) 0) as [Hz|Hz].
   - assert (n = j) by lia. subst n.
@@ -254,12 +294,12 @@ Section ReadAll.
   Hypothesis Hgrow : forall c, 0 < c -> c < grow c.
 
   Lemma readall_loop_cread t : forall fuel cs n b cap,
-    chunks_ok cs -> zlen b < cap -> (length (concat cs) + 1 <= fuel)%nat ->
+    chunks_ok cs -> zlen b < cap -> (length cs + length (concat cs) + 1 <= fuel)%nat ->
     exists cs' n',
       readall_loop (limited_read cread) grow fuel ((cs, t), n) b cap
         = Some (b ++ firstn (Z.to_nat n) (concat cs), rall_err (concat cs) n t, ((cs', t), n'))
       /\ concat cs' = skipn (Z.to_nat n) (concat cs)
-      /\ chunks_ok cs'.
+      /\ chunks_ok cs' /\ (length cs' <= length cs)%nat.
   Proof.
     induction fuel as [|f IH]; intros cs n b cap Hok Hcap Hfuel; [lia|].
     rewrite readall_loop_eq. cbn [limited_read].
@@ -277,27 +317,30 @@ Section ReadAll.
         exists [], n. rewrite firstn_nil, skipn_nil. cbn [concat].
         unfold rall_err. destruct (Z.leb_spec n 0); [lia|]. rewrite zlen_nil.
         destruct (Z.ltb_spec 0 n); [|lia]. repeat split; auto.
-      + inversion Hok as [|? ? Hc Hrest]; subst.
-        cbn [cread concat].
+      + cbn [cread concat].
         destruct (Z.leb_spec (zlen c) k') as [Hfit|Hbig].
         * destruct (is_nil rest && t_with_last t) eqn:Hlast.
           -- apply andb_prop in Hlast. destruct Hlast as [Hnil Hwl].
              destruct rest; [|discriminate]. cbn [concat]. rewrite app_nil_r.
              rewrite noneof_match.
              exists [], (n - zlen c). rewrite firstn_all_z by lia. rewrite skipn_all_z by lia.
-             cbn [concat]. repeat split; auto. f_equal. f_equal. f_equal.
+             cbn [concat]. split; [|split; [reflexivity|split; [apply chunks_ok_nil|cbn [length]; lia]]].
+             f_equal. f_equal. f_equal.
              unfold rall_err. destruct (Z.leb_spec n 0); [lia|]. rewrite Hwl, andb_true_r.
              destruct (Z.ltb_spec (zlen c) n); [reflexivity|].
              destruct (Z.eqb_spec (zlen c) n); [reflexivity|lia].
           -- set (cap' := if zlen (b ++ c) =? cap then grow cap else cap).
-             destruct (IH rest (n - zlen c) (b ++ c) cap' Hrest) as (cs' & n' & He & Hc' & Hok').
+             assert (Hrest : chunks_ok rest).
+             { destruct rest; [apply chunks_ok_nil|]. apply (chunks_ok_tail c); [assumption|discriminate]. }
+             pose proof (zlen_nonneg c) as Hc0.
+             destruct (IH rest (n - zlen c) (b ++ c) cap' Hrest) as (cs' & n' & He & Hc' & Hok' & Hlen').
              { unfold cap'. rewrite zlen_app. destruct (Z.eqb_spec (zlen b + zlen c) cap).
                - pose proof (zlen_nonneg b). specialize (Hgrow cap). lia.
                - lia. }
-             { cbn [concat] in Hfuel. rewrite app_length in Hfuel. unfold zlen in Hc. lia. }
+             { cbn [concat length] in Hfuel. rewrite app_length in Hfuel. lia. }
              exists cs', n'.
              rewrite (firstn_app_z n c) by lia. rewrite (skipn_app_z n c) by lia.
-             split; [|split; assumption].
+             split; [|split; [assumption|split; [assumption|cbn [length]; lia]]].
              etransitivity; [exact He|]. rewrite <- app_assoc.
              f_equal. f_equal. f_equal.
              rewrite <- (rall_err_step (c ++ concat rest) n t (zlen c)); try lia.
@@ -311,16 +354,19 @@ Section ReadAll.
           rewrite Hd.
           set (d := firstn (Z.to_nat k') c) in *.
           set (cap' := if zlen (b ++ d) =? cap then grow cap else cap).
-          destruct (IH (skipn (Z.to_nat k') c :: rest) (n - k') (b ++ d) cap') as (cs' & n' & He & Hc' & Hok').
-          { constructor; auto. rewrite zlen_skipn by lia. lia. }
+          destruct (IH (skipn (Z.to_nat k') c :: rest) (n - k') (b ++ d) cap') as (cs' & n' & He & Hc' & Hok' & Hlen').
+          { apply chunks_ok_cons.
+            - intros _ E. apply (f_equal (@zlen Z)) in E. rewrite zlen_skipn in E by lia.
+              unfold zlen at 2 in E. cbn [length] in E. lia.
+            - intros Hr. apply (chunks_ok_tail c); assumption. }
           { unfold cap'. rewrite zlen_app, Hd. destruct (Z.eqb_spec (zlen b + k') cap).
             - pose proof (zlen_nonneg b). specialize (Hgrow cap). lia.
             - lia. }
-          { cbn [concat] in *. rewrite app_length in *. rewrite skipn_length.
+          { cbn [concat length] in *. rewrite app_length in *. rewrite skipn_length.
             unfold zlen in Hbig. lia. }
           exists cs', n'. cbn [concat] in *.
           rewrite <- (skipn_app_short_z k' c (concat rest)) in * by lia.
-          split; [|split].
+          split; [|split; [|split]].
           -- etransitivity; [exact He|]. rewrite <- app_assoc.
              f_equal. f_equal. f_equal.
              ++ f_equal. unfold d. rewrite <- (firstn_app_short_z k' c (concat rest)) by lia.
@@ -330,15 +376,16 @@ Section ReadAll.
                 ** rewrite zlen_app. pose proof (zlen_nonneg (concat rest)). lia.
           -- rewrite Hc'. symmetry. apply skipn_split_z. lia.
           -- assumption.
+          -- cbn [length] in *. lia.
   Qed.
 
   Theorem ReadAll_limited_cread t fuel cs n :
-    chunks_ok cs -> (length (concat cs) + 1 <= fuel)%nat ->
+    chunks_ok cs -> (length cs + length (concat cs) + 1 <= fuel)%nat ->
     exists cs' n',
       ReadAll (limited_read cread) grow fuel ((cs, t), n)
         = Some (firstn (Z.to_nat n) (concat cs), rall_err (concat cs) n t, ((cs', t), n'))
       /\ concat cs' = skipn (Z.to_nat n) (concat cs)
-      /\ chunks_ok cs'.
+      /\ chunks_ok cs' /\ (length cs' <= length cs)%nat.
   Proof.
     intros Hok Hfuel. unfold ReadAll.
     destruct (readall_loop_cread t fuel cs n [] 512 Hok) as (cs' & n' & He & H).
